@@ -54,7 +54,7 @@ struct C06 : Property
 	{
 		return {"O.replace_keeps_position", "O.reinsert_after_delete_goes_last", "O.delete_absent_key", "O.growth_with_tombstones", "O.delete_current_key_in_foreach", "O.add_ex_key_is_new",
 		        "O.add_ex_constant_key", "O.empty_key", "O.long_key", "O.perllike_hash", "O.default_hash", "O.alloc_failure_leaves_map_unchanged", "L.table_size_1", "L.constant_hash_all_collide",
-		        "L.explicit_resize", "L.tombstone_reuse", "L.alloc_failure_leaves_map_unchanged", "seed_source_consulted", "O.delete_current_member_in_visitor", "O.global_hash_switched_while_object_lives", "seed_source_returned_minus_one_first"};
+		        "L.explicit_resize", "L.tombstone_reuse", "L.alloc_failure_leaves_map_unchanged", "seed_source_consulted", "O.delete_current_member_in_visitor", "O.global_hash_switched_while_object_lives", "seed_source_returned_minus_one_first", "L.delete_entry_two_step", "L.delete_current_entry_in_foreach_safe"};
 	}
 	std::map<std::string, int64_t> cfg_defaults() const override { return {{"perllike", 0}, {"first_draws_minus_one", 0}, {"first_real_draw_zero", 0}}; }
 
@@ -636,6 +636,10 @@ struct C06 : Property
 						have = true;
 						want = m.second;
 					}
+				struct lh_entry *we = LIB(lh_table_lookup_entry_w_hash(t, k.c_str(), lh_get_hash(t, k.c_str())));
+				if ((we != nullptr) != have || (we && (intptr_t)lh_entry_v(we) != want))
+					ctx.fail("C06:lookup-mismatch", "L op %zu (%s): lookup_entry_w_hash('%s') %s, model %s it", oi, after, printable(k, 20).c_str(), we ? "finds an entry" : "finds nothing",
+					         have ? "has" : "lacks");
 				if ((found != 0) != have || (have && (intptr_t)v != want) || (!have && v != nullptr))
 					ctx.fail("C06:lookup-mismatch", "L op %zu (%s): key '%s' found=%d value=%ld, model %s %ld", oi, after, printable(k, 20).c_str(), found, (long)(intptr_t)v,
 					         have ? "has" : "lacks", (long)want);
@@ -748,7 +752,16 @@ struct C06 : Property
 				for (size_t i = 0; i < model.size(); i++)
 					if (model[i].first == k)
 						pos = (long)i;
-				int rc = LIB(lh_table_delete(t, k.c_str()));
+				int rc;
+				if ((ki + oi) % 3 == 1)
+				{
+					// the two-step form: find the entry, delete that entry
+					struct lh_entry *de = LIB(lh_table_lookup_entry_w_hash(t, k.c_str(), lh_get_hash(t, k.c_str())));
+					rc = de ? LIB(lh_table_delete_entry(t, de)) : -1;
+					ctx.probe("L.delete_entry_two_step");
+				}
+				else
+					rc = LIB(lh_table_delete(t, k.c_str()));
 				if ((rc == 0) != (pos >= 0))
 					ctx.fail("C06:delete-mismatch", "L op %zu: lh_table_delete('%s') returned %d, model %s the key", oi, printable(k, 20).c_str(), rc, pos >= 0 ? "has" : "lacks");
 				if (pos >= 0)
@@ -760,6 +773,47 @@ struct C06 : Property
 				}
 				else
 					cov += "|absent";
+			}
+			else if (op.kind == "iterdel" || op.kind == "visitdel")
+			{
+				// lh_foreach_safe: delete the current entry while walking; the rest of the walk must be undisturbed
+				int mod = 2 + (int)(op.arg(0) % 3), rem = (int)(op.arg(1) % mod);
+				std::vector<std::string> seen;
+				{
+					LibScope ls;
+					struct lh_entry *e, *tmp;
+					int guard2 = 0;
+					lh_foreach_safe(t, e, tmp)
+					{
+						std::string ek = (const char *)lh_entry_k(e);
+						seen.push_back(ek);
+						if ((intptr_t)lh_entry_v(e) % mod == rem)
+							lh_table_delete_entry(t, e);
+						if (guard2++ > 100000)
+							break;
+					}
+				}
+				std::vector<std::string> want_seen;
+				for (auto &m : model)
+					want_seen.push_back(m.first);
+				if (seen != want_seen)
+					ctx.fail("C06:delete-during-iteration-disturbs-iteration", "L op %zu: lh_foreach_safe with deletion of the current entry visited %zu entries, the table held %zu", oi, seen.size(),
+					         want_seen.size());
+				for (size_t i = 0; i < model.size();)
+					if (model[i].second % mod == rem)
+					{
+						expect_freed.push_back(model[i].first);
+						model.erase(model.begin() + (long)i);
+						deletes_since_growth++;
+					}
+					else
+						i++;
+				if (!expect_freed.empty())
+				{
+					ctx.probe("L.delete_current_entry_in_foreach_safe");
+					ctx.nontrivial = true;
+				}
+				cov += expect_freed.empty() ? "|none" : "|some";
 			}
 			else if (op.kind == "resize")
 			{
